@@ -10,7 +10,9 @@ VARIABLE S
 Names == <<"Block", "Send:ok", "Send:err", "Recv:ok", "Recv:err", "Recv:none", "Ack:ok", "Ack:undo", "Timeout:undo",
            "Resolve:ok", "Resolve:undo", "Add:ok", "Add:err", "Update:ok", "Remove:ok", "Reset:ok",
            "EpochReset", "EpochResetWhilePending", "AdminWhilePending", "UndoOutsideWindow", "ExactQuota", "QuotaRefused",
-           "RecvRefusedByQuota", "NetFlowOffsets">>
+           "RecvRefusedByQuota", "NetFlowOffsets",
+           "Wl:SendBeyondQuota", "Wl:SendNotCounted", "Wl:UndoLeavesFlow", "Wl:RecvNotCounted", "Wl:Del", "Wl:OtherPairCounted",
+           "Bl:SendRefused", "Bl:RecvRefused", "Bl:UndoWhileBlacklisted", "Bl:Del">>
 Idx(n) == CHOOSE i \in DOMAIN Names : Names[i] = n
 Wit(n) == IF TLCGet(Idx(n)) = 0 THEN TLCSet(Idx(n), 1) /\ PrintT(<<"WITNESS", n>>) ELSE TRUE
 WitIf(c, n) == IF c THEN Wit(n) ELSE TRUE
@@ -44,6 +46,22 @@ Witnesses(a, r) ==
        /\ WitIf(a.a = "Recv" /\ r.ack = "err" /\ a.fate # "err" /\ T.rl[p].on, "RecvRefusedByQuota")
        /\ WitIf(a.a = "Send" /\ r.res = "ok" /\ T.rl[p].on /\ T.rl[p].inflow > 0
                 /\ T.rl[p].outflow + a.amt > Threshold(T.rl[p].cv, T.rl[p].qs), "NetFlowOffsets")
+       \* whitelisted address pairs: accepted beyond the quota, not counted, no marker, the refund leaves the flow alone
+       /\ WitIf(a.a = "Send" /\ r.res = "ok" /\ T.rl[p].on /\ SendWhitelisted(T, a) /\ ~G_SendWithinQuota(T.rl[p], a.amt), "Wl:SendBeyondQuota")
+       /\ WitIf(a.a = "Send" /\ r.res = "ok" /\ T.rl[p].on /\ SendWhitelisted(T, a) /\ T.rl[p].outflow > 0
+                /\ r.S.rl[p].outflow = T.rl[p].outflow /\ r.S.ps = T.ps, "Wl:SendNotCounted")
+       /\ WitIf(a.a = "Send" /\ r.res = "ok" /\ T.rl[p].on /\ T.wl # {} /\ ~SendWhitelisted(T, a)
+                /\ r.S.rl[p].outflow > T.rl[p].outflow, "Wl:OtherPairCounted")
+       /\ WitIf(a.a \in {"Ack", "Timeout"} /\ r.res = "ok" /\ a.pkt.fate # "ok" /\ T.rl[p].on /\ T.rl[p].outflow > 0
+                /\ Acc(a.pkt.seq, a.pkt.amt) \notin T.g.out[p] /\ <<"out", p, a.pkt.seq>> \notin T.g.undone
+                /\ T.g.out[p] # {} /\ T.wl # {} /\ r.S.rl[p].outflow = T.rl[p].outflow, "Wl:UndoLeavesFlow")
+       /\ WitIf(a.a = "Recv" /\ r.ack = "ok" /\ T.rl[p].on /\ RecvWhitelisted(T, a) /\ r.S.rl[p].inflow = T.rl[p].inflow, "Wl:RecvNotCounted")
+       /\ WitIf(a.a = "WlDel" /\ a.pair \in T.wl, "Wl:Del")
+       /\ WitIf(a.a = "Send" /\ r.res = "err" /\ a.d \in T.bl /\ G_SendWithinQuota(T.rl[p], a.amt), "Bl:SendRefused")
+       /\ WitIf(a.a = "Recv" /\ r.ack = "err" /\ a.d \in T.bl /\ a.fate = "ok" /\ G_RecvWithinQuota(T.rl[p], a.amt), "Bl:RecvRefused")
+       /\ WitIf(a.a \in {"Ack", "Timeout"} /\ r.res = "ok" /\ a.pkt.fate # "ok" /\ a.pkt.d \in T.bl
+                /\ r.S.rl[p].outflow < T.rl[p].outflow, "Bl:UndoWhileBlacklisted")
+       /\ WitIf(a.a = "BlDel" /\ a.d \in T.bl, "Bl:Del")
 
 Init == S = InitState(SUPN, SUPV, 1, 1, 1) /\ \A i \in DOMAIN Names : TLCSet(i, 0)
 Next == \E a \in Acts(S, 3) : LET r == Step(S, a) IN S' = r.S /\ Witnesses(a, r)
